@@ -99,6 +99,34 @@ GENERAL = [
 SNIPPETS = ["1", "'s'", "a + b", "f(x)", "NOT z", "x AND y", "c.d", "CAST(q AS TEXT)", "(SELECT 1)", "CASE WHEN p THEN 1 END",
             "NULL", "TRUE", "x IN (1, 2)", "COUNT(*)", "t.*", "a = a", "x BETWEEN 1 AND 2", "-y", "u || v", "COALESCE(m, n)"]
 
+# Inputs known to touch per-instance state of Parser / Generator / Tokenizer (name counters, CTE counters, error lists,
+# unsupported-message lists, speculative parsing, JSON-path quoting toggles). Used to make reuse of components observable.
+STATEFUL = [
+    ("bigquery", "SELECT * FROM UNNEST([1, 2]) AS x"),
+    ("bigquery", "SELECT * FROM UNNEST([1, 2]) AS x, UNNEST([3, 4]) AS y"),
+    ("bigquery", "SELECT x FROM t, UNNEST(t.arr) AS x WITH OFFSET AS o"),
+    ("bigquery", "FROM x |> WHERE a > 1 |> SELECT a"),
+    ("bigquery", "FROM x |> SELECT a, b |> AGGREGATE SUM(b) AS s GROUP BY a |> ORDER BY s"),
+    ("bigquery", "SELECT JSON_EXTRACT(j, '$.a.b'), JSON_EXTRACT_SCALAR(j, \"$['k k']\") FROM t"),
+    ("bigquery", "SELECT CAST(x AS STRUCT<a INT64, b ARRAY<STRING>>) FROM t"),
+    ("snowflake", "SELECT * FROM t, LATERAL FLATTEN(input => t.v)"),
+    ("snowflake", "SELECT FILTER(arr, x -> x > 1), TRANSFORM(arr, (a, b) -> a + b) FROM t"),
+    ("presto", "SELECT * FROM UNNEST(ARRAY[1, 2]) AS t(x) CROSS JOIN UNNEST(ARRAY[3]) WITH ORDINALITY"),
+    ("spark", "SELECT EXPLODE(arr), POSEXPLODE(arr2) FROM t"),
+    ("spark", "SELECT * FROM t LATERAL VIEW EXPLODE(arr) u AS v LATERAL VIEW POSEXPLODE(b) w AS p, q"),
+    ("duckdb", "SELECT UNNEST([1, 2]), LIST_TRANSFORM(l, x -> x + 1) FROM t"),
+    ("postgres", "SELECT a ILIKE 'x', b ~* 'r', c @> ARRAY[1], GENERATE_SERIES(1, 3) FROM t"),
+    ("postgres", "SELECT * FROM GENERATE_SERIES(1, 3)"),
+    ("tsql", "SELECT TOP 3 PERCENT WITH TIES a FROM t ORDER BY a"),
+    ("mysql", "SELECT a FROM t FORCE INDEX (i) WHERE MATCH(b) AGAINST('x' IN BOOLEAN MODE)"),
+    ("oracle", "SELECT a FROM t CONNECT BY PRIOR a = b START WITH c = 1"),
+    ("clickhouse", "SELECT a FROM t ARRAY JOIN arr AS x SETTINGS max_threads = 1"),
+    (None, "SELECT * FROM (VALUES (1, 2), (3, 4))"),
+    (None, "SELECT * FROM (SELECT 1) CROSS JOIN (SELECT 2)"),
+    (None, "SELECT a FROM t WHERE b = :p1 AND c = ? AND d = @v"),
+    (None, "SELECT x[1:2], INTERVAL '1' DAY + d, DATE '2020-01-01', {'a': 1} FROM t"),
+]
+
 FAILING = [
     (None, "SELECT * FROM"),
     (None, "SELECT 'unterminated"),
